@@ -310,6 +310,23 @@ func genPathCase(rng *core.Rand) string {
 	return "path " + listField(l) + " " + core.Hex(u.Path) + " " + core.Hex(u.EscapedPath())
 }
 
+// genPathPair: a path case plus one explicit re-spelling of it.
+func genPathPair(rng *core.Rand) string {
+	f := strings.Fields(genPathCase(rng))
+	p1, _ := core.UnHex(f[2])
+	e1, _ := core.UnHex(f[3])
+	kind := rng.Pick([]string{"case", "slash", "pct"})
+	raw, ok := mutate(rng, e1, kind)
+	if !ok {
+		raw = e1
+	}
+	u, err := url.ParseRequestURI(raw)
+	if err != nil || u.RawQuery != "" || u.ForceQuery || u.Host != "" || u.Scheme != "" {
+		u = &url.URL{Path: p1, RawPath: e1}
+	}
+	return "pathpair " + kind + " " + f[1] + " " + core.Hex(p1) + " " + core.Hex(e1) + " " + core.Hex(u.Path) + " " + core.Hex(u.EscapedPath())
+}
+
 func genPathRECase(rng *core.Rand) string {
 	lit := "/" + rng.Pick([]string{"foo", "Foo", "a/b", "admin", "index.html", "a", ""})
 	if rng.Chance(1, 4) {
@@ -361,7 +378,7 @@ func genMalformed(rng *core.Rand) string {
 	case 9:
 		return "path " + listField([]string{"/{http.request.uri.path}"}) + " 2f61 2f61"
 	case 10:
-		return "frob 00"
+		return rng.Pick([]string{"frob 00", "pathpair case 2f61 2f61 2f61 2f62 2f62", "pathpair glob 2f61 2f61 2f61 2f61 2f61", "pathpair slash 2f61 2f2f61 2f2f61 2f61"})
 	default:
 		return "path " + listField([]string{"/é"}) + " 2f61 2f61"
 	}
@@ -384,6 +401,8 @@ func (prop) Generate(rng *core.Rand, tier string, emit func(string)) {
 			emit(genHostNonASCII(nr))
 		case c%20 == 7:
 			emit(genPathRECase(rr))
+		case c%20 == 13:
+			emit(genPathPair(pr))
 		case c%5 < 2:
 			emit(genHostCase(hr))
 		default:
